@@ -298,7 +298,7 @@ def _file_cases(draw, truncated=False):
     coding = draw(st.sampled_from(sw.CODINGS))
     c = draw(st.sampled_from([1, 1, 1, 2, 3, 4, 5, 6, 7, 8] if truncated else [1, 2, 3, 3, 4, 5, 5, 6, 6, 7, 7, 8]))
     fb = sw.frame_bytes(coding, c)
-    mode = draw(st.sampled_from(["small", "any", "near", "near", "near"]))
+    mode = draw(st.sampled_from(["small", "any", "near", "near", "near", "near"]))
     if mode == "near":
         n = READ * draw(st.sampled_from([1, 2, 2, 3])) // fb + draw(st.sampled_from([-1, 0, 1]))
     elif mode == "small":
